@@ -1,4 +1,5 @@
 import Haiway.Model.Proc
+import Haiway.Proofs.ProcProg
 import Haiway.Proofs.Tasks
 /-!
 # C02 – leaving a scope restores the surrounding context on every exit path
@@ -94,6 +95,17 @@ theorem state_restored_across_tasks (ctor : Nat → Bool) (ls : List Tasks.Label
     tk.state = (Tasks.visibleOf tk.inherited tk.frames).map ScopeState.stateOf :=
   Tasks.chain_state _ _ _ (Tasks.exec_inv ctor ls Tasks.init Tasks.init_inv tk (List.mem_of_getElem? ht)).chain
 
+/-- C02.restored_program: for **every** finite nesting of async scopes, sync scopes, `ctx.updated` blocks, `try`
+blocks and raises – every depth, every number of blocks, an independent fault assignment for every block – the code
+after the program (and after every statement of it, hence after every block of the tree) sees the context triple the
+program started with, whether it ends normally or with an exception. -/
+theorem restored_program (p : Prog) (c : Ctx) : (execProg p c).1 = c :=
+  execProg_ctx p c
+
+/-- …and the same for each single statement / block, whatever is nested in it. -/
+theorem restored_statement (s : Stmt) (c : Ctx) : (execStmt s c).1 = c :=
+  execStmt_ctx s c
+
 /-! ## Non-vacuity: the flat exit procedure of the pinned tree does **not** restore -/
 
 def φbad : Faults := fun a => if a = .dispExit then some (.user 1) else none
@@ -102,5 +114,11 @@ def m0 : M := { ctx := ⟨0, 0, 0⟩, tok := ⟨0, 0, 0⟩, new := ⟨1, 1, 1⟩
 example : (block aenter aexitFlat φbad none id m0).1.ctx ≠ m0.ctx := by decide
 example : (block aenter aexit φbad none id m0).1.ctx = m0.ctx ∧
     (block aenter aexit φbad none id m0).2 = some (.user 1) := by decide
+
+/-- a three-level program with faults in two blocks: context restored, the inner cleanup failure is what escapes -/
+example :
+    let inner : Stmt := .scopeA φbad ⟨5, 5, 5⟩ (.cons (.raise (.user 9)) .nil)
+    let prog : Prog := .cons (.scopeS (fun _ => none) ⟨3, 3, 0⟩ (.cons (.updated (fun _ => none) ⟨4, 0, 0⟩ (.cons inner .nil)) .nil)) .nil
+    execProg prog ⟨0, 0, 0⟩ = (⟨0, 0, 0⟩, some (.user 1)) := by decide
 
 end Haiway.C02
